@@ -55,7 +55,9 @@ def _gen_cfg(S, want_rt=None):
         # single-residue classes, multi-residue motifs and anchored patterns; values that may coincide with each
         # other or with the built-in water / ammonia losses
         custom = [[S.pick(['[ST]', 'K', '[DE]', 'P', 'A', '[KR]', 'M', 'DE', 'AA', 'K$', '^P', 'P[ST]', '[KR][KR]', 'E',
-                           '[STED]', 'L.', '.K']),
+                           '[STED]', 'L.', '.K',
+                           # classes that match residues they do not spell out
+                           '[^P]', '[A-G]', '[^KR]$', '(?<=K).']),
                    S.pick([-18.0, -17.5, -98.0, -10.25, 5.5, -18.01056, -17.02655, -18.01056])]
                   for _ in range(S.randint(1, 2))]
         if len(custom) == 2 and custom[0][1] == custom[1][1]:
@@ -92,6 +94,8 @@ def _mutate_cfg(S, base_cfg):
 def gen_plan(S, index, tier):
     header = {'property': ID, 'seed': S.seed, 'index': index, 'tier': tier}
     allow = ['static', 'isotope', 'nterm', 'cterm', 'internal']
+    if S.coin(0.15):
+        allow = allow + ['labile']       # outside the stated quantifier, inside the domain: labile mods leave with the precursor
     cfg = SP.swarm_cfg(S, maxlen=S.pick([3, 6, 12]), allow=allow, families=SP.MASSABLE, rare=False)
     if S.coin(0.5):
         cfg['p']['isotope'] = 0.0      # labelled peptides are a configuration of their own
@@ -295,6 +299,7 @@ def _tol(cfg, mono):
 
 def execute(plan):
     setup()
+    base.check_poison_consistent(plan)
     pt = Env.pt
     run = _Run(plan)
     out = run.out
